@@ -36,6 +36,8 @@ class Ref:
                     self.fsm_state[st[1]["id"]] = st[1]["init"] if st[1]["init"] is not None else st[1]["states"][0][0]
         self.doms = {d["name"]: d for d in prog["domains"]}
         self.rst = {d["name"]: 0 for d in prog["domains"]}
+        self.clk = {d["name"]: 0 for d in prog["domains"]}
+        self.cur_chain = []
         self.prints = []        # messages emitted by the last edge() call: list of (module index, domain, text)
         self.failed = []        # assertions that failed at the last edge() call: (module index, domain, kind, message|None)
         self.settle()
@@ -135,6 +137,13 @@ class Ref:
             return self.ev(e[1][self.ev(e[2])])
         if op == "ongoing":
             return int(self.fsm_state[e[1]] == e[2])
+        if op in ("clk", "rst"):
+            # ClockSignal / ResetSignal of a domain *name*, resolved late: renamers around the module apply
+            cur = e[1]
+            for w in self.cur_chain:
+                if w[0] == "rename":
+                    cur = w[1].get(cur, cur)
+            return (self.clk if op == "clk" else self.rst)[cur]
         raise AssertionError(op)
 
     @staticmethod
@@ -267,6 +276,7 @@ class Ref:
                 if not own:
                     continue
                 nxt = {}
+                self.cur_chain = chain
                 self.run_block(m["stmts"], "comb", nxt, mi, {})
                 for si, mask in own.items():
                     init = self.sigs[si]["init"]
@@ -309,7 +319,12 @@ class Ref:
                     for st in m["stmts"]:
                         if st[0] == "fsm" and st[1]["domain"] == od:
                             self.fsm_state[st[1]["id"]] = st[1]["init"] if st[1]["init"] is not None else st[1]["states"][0][0]
-            self.settle()
+        self.settle()
+
+    def set_clock(self, dom, level):
+        """Clock level as seen by combinational logic that reads ClockSignal(); call after edge() (pre-edge sampling)."""
+        self.clk[dom] = level
+        self.settle()
 
     @staticmethod
     def module_domains(m):
@@ -339,6 +354,7 @@ class Ref:
                 fsm_next = {}
                 saved_prints = len(self.prints)
                 saved_failed = len(self.failed)
+                self.cur_chain = chain
                 self.run_block(m["stmts"], od, nxt, mi, fsm_next)
                 # inserted controls, inside-out
                 frozen = False
@@ -416,6 +432,6 @@ def shape_of(e, sigs):
         return shape_of(e[1], sigs)
     if op == "array":
         return shape_of(e[1][0], sigs)
-    if op in ("all", "xor", "matches", "bool", "any", "ongoing", "==", "!=", "<", "<=", ">", ">="):
+    if op in ("all", "xor", "matches", "bool", "any", "ongoing", "clk", "rst", "==", "!=", "<", "<=", ">", ">="):
         return 1, False
     return None
